@@ -284,6 +284,7 @@ class _matrix(object):
         # multiple times, when calculating the inverse and when calculating the
         # determinant
         self._LU = None
+        self._LU_prec = None
         if "force_type" in kwargs:
             warnings.warn("The force_type argument was removed, it did not work"
                 " properly anyway. If you want to force floating-point or"
@@ -712,6 +713,7 @@ class _matrix(object):
             if key[0] >= value:
                 del self.__data[key]
         self.__rows = value
+        self._LU = None
 
     rows = property(__getrows, __setrows, doc='number of rows')
 
@@ -723,6 +725,7 @@ class _matrix(object):
             if key[1] >= value:
                 del self.__data[key]
         self.__cols = value
+        self._LU = None
 
     cols = property(__getcols, __setcols, doc='number of columns')
 
